@@ -478,7 +478,8 @@ fn check_table(d: Dialect, t: &TableS) -> Result<bool, (String, String)> {
         if t.comment {
             s.comment(COMMENT_TEXT);
         }
-        s
+        // the usual way to finish a builder chain: move the statement out, render the moved value
+        s.take()
     })
     .map_err(|p| ("render-panic".to_string(), format!("rendering panicked: {p}")))?;
     note_sql(&sql);
@@ -782,6 +783,28 @@ fn other_cases(d: Dialect) -> Vec<(String, Result<String, String>, Option<PStmt>
                 PElem::ForeignKey(PFk { name: None, cols: vec!["a".into()], ref_table: vec!["p".into()], ref_cols: vec!["x".into()], on_delete: None, on_update: None }),
                 PElem::ForeignKey(PFk { name: None, cols: vec!["b".into()], ref_table: vec!["q".into()], ref_cols: vec!["y".into()], on_delete: Some("CASCADE".into()), on_update: None }),
             ],
+            options: vec![],
+        })),
+    ));
+    v.push((
+        "create-table index builder reused after primary_key".into(),
+        render!(d, {
+            let mut key = Index::create();
+            let mut s = Table::create();
+            s.table(a("t")).col(ColumnDef::new(a("a")).integer().not_null()).col(ColumnDef::new(a("b")).integer());
+            s.primary_key(key.col(a("a")));
+            s.index(key.name("uq").col(a("b")).unique());
+            s
+        }),
+        Some(PStmt::CreateTable(PCreateTable {
+            temporary: false,
+            if_not_exists: false,
+            name: t(),
+            cols: vec![
+                PCol { name: "a".into(), ty: Some(PType { name: if pg { "INTEGER".into() } else { "INT".into() }, ..Default::default() }), specs: vec![PSpec::NotNull] },
+                PCol { name: "b".into(), ty: Some(PType { name: if pg { "INTEGER".into() } else { "INT".into() }, ..Default::default() }), specs: vec![] },
+            ],
+            elems: vec![PElem::PrimaryKey { name: None, cols: vec![kp("a")] }, PElem::Unique { name: Some("uq".into()), cols: vec![kp("b")], nulls_not_distinct: false, include: vec![] }],
             options: vec![],
         })),
     ));
